@@ -417,16 +417,17 @@ fn gen_request(rng: &mut Rng, kind: Kind) -> Req {
     let (n, huge) = match rng.below(40) {
         0 => (0.0, false),
         1 => (1.0, false),
-        2..=25 => (rng.below(24) as f64 + 2.0, false),
-        26..=33 => (rng.below(120) as f64 + 2.0, false),
-        34 | 35 => (rng.below(1500) as f64 + 100.0, false),
+        2..=29 => (rng.below(24) as f64 + 2.0, false),
+        30..=34 => (rng.below(90) as f64 + 2.0, false),
+        35 => (rng.below(500) as f64 + 100.0, false),
         36 => ((1u64 << 32) as f64 - 3.0 + rng.below(6) as f64, true), // around u32::MAX
         37 => (rng.below(1u64 << 31) as f64 * 2.0, true),
         38 => (-(rng.below(5) as f64) - 1.0, false),
         _ => ((1u64 << 33) as f64 * (1.0 + rng.unit()), true),
     };
     // offset from the integer, in samples
-    let delta = match rng.below(16) {
+    let delta = match rng.below(24) {
+        16.. => 0.0,
         0..=5 => 0.0,
         6 => thr * (1.0 - 1.0 / 64.0),
         7 => thr * (1.0 + 1.0 / 64.0),
@@ -440,7 +441,9 @@ fn gen_request(rng: &mut Rng, kind: Kind) -> Req {
         _ => f64::EPSILON * (rng.below(5) as f64 - 2.0),
     };
     let target = n + delta;
-    let dur = if rng.chance(1, 6) {
+    // rates with more than 20 significant bits leave too few bits for an aligned exact product
+    let realistic = if sig_bits(rate) > 20 { rng.chance(3, 4) } else { rng.chance(1, 6) };
+    let dur = if realistic {
         // realistic, generally inexact product
         n / rate
     } else {
@@ -615,7 +618,7 @@ fn run(ctx: &mut Ctx) {
         }
     }
     // seeded random requests
-    let n_random = if ctx.quick() { 12_000 } else { 400_000 };
+    let n_random = if ctx.quick() { 9_000 } else { 300_000 };
     let mut rng = ctx.rng(32);
     for i in 0..n_random {
         let kind = KINDS[i % KINDS.len()];
